@@ -1188,7 +1188,10 @@ def jobs(tier, seed):
     if not thorough:
         cff2 = [f for f in fids if "CFF2" in corpus.entry(f)["tables"]]
         rest = [f for f in fids if f not in cff2]
-        fids = corpus.sample(cff2, 6, subseed(seed, "corpus-cff2")) + corpus.sample(rest, 24, subseed(seed, "corpus-cff"))
+        # every generated CID-keyed font (small; several font dicts with their own default widths) and a sample of the rest
+        cid = [f for f in rest if f.startswith("gen:") and corpus.gen_spec(f)["kind"] == "cid"]
+        rest = [f for f in rest if f not in cid]
+        fids = corpus.sample(cff2, 6, subseed(seed, "corpus-cff2")) + corpus.sample(rest, 24, subseed(seed, "corpus-cff")) + cid
     for fid in fids:
         J.append(dict(kind="corpus", name="corpus:" + fid, fid=fid, seed=seed, tier=tier))
     # slow jobs first
